@@ -344,6 +344,17 @@ func nonEmptyLP(t *Term, k int64) (lp LP, always bool, can bool) {
 	if t.Op == "list" {
 		return LP{}, int64(len(t.Args)) > k, int64(len(t.Args)) > k
 	}
+	if t.Op == "call" && t.Name == "append" && len(t.Args) >= 2 && k == 0 {
+		spread := false
+		for _, a := range t.Args[1:] {
+			if a.Op == "spread" {
+				spread = true
+			}
+		}
+		if !spread {
+			return LP{}, true, true // append(x, e) holds at least e
+		}
+	}
 	if t.Op == "call" && t.Name == "make" && len(t.Args) >= 2 {
 		if n, ok := intConst(t.Args[1]); ok {
 			return LP{}, n > k, n > k
